@@ -24,10 +24,11 @@ bool op_newOwner() {
     withT(t, [&](auto tt) {
         constexpr int T = decltype(tt)::value; typedef EltT<T> E;
         auto eltOf = [&](int e) { return mkElt<E>(&L[(size_t)e * K]); };
+        const E fillE = mkElt<E>(fillv);
         if (shape == 0) {
             Matrix_<E>* m = nullptr;
             if (variant == 0) { m = new Matrix_<E>(nr, nc); for (int j = 0; j < nc; ++j) for (int i = 0; i < nr; ++i) { if (r.coin()) (*m)(i, j) = eltOf(i + j * nr); else m->set(i, j, eltOf(i + j * nr)); } }
-            else if (variant == 1) m = new Matrix_<E>(nr, nc, eltOf(0 < nr * nc ? 0 : 0));
+            else if (variant == 1) m = new Matrix_<E>(nr, nc, fillE);
             else if (variant == 2) { std::vector<E> a((size_t)std::max(1, nr * nc)); for (int i = 0; i < nr; ++i) for (int j = 0; j < nc; ++j) a[(size_t)i * nc + j] = eltOf(i + j * nr); m = new Matrix_<E>(nr, nc, a.data()); }
             else if (variant == 3) { m = new Matrix_<E>(); m->resize(nr, nc); for (int j = 0; j < nc; ++j) for (int i = 0; i < nr; ++i) m->updElt(i, j) = eltOf(i + j * nr); }
             else { Mat<2, 3, E> f; for (int i = 0; i < 2; ++i) for (int j = 0; j < 3; ++j) f(i, j) = eltOf(i + j * 2); m = new Matrix_<E>(f); }
@@ -35,7 +36,7 @@ bool op_newOwner() {
         } else if (shape == 1) {
             Vector_<E>* v = nullptr;
             if (variant == 0) { v = new Vector_<E>(nr); for (int i = 0; i < nr; ++i) { if (r.coin()) (*v)[i] = eltOf(i); else v->set(i, eltOf(i)); } }
-            else if (variant == 1) v = new Vector_<E>(nr, eltOf(0));
+            else if (variant == 1) v = new Vector_<E>(nr, fillE);
             else if (variant == 2) { std::vector<E> a((size_t)std::max(1, nr)); for (int i = 0; i < nr; ++i) a[i] = eltOf(i); v = new Vector_<E>(nr, a.data()); }
             else if (variant == 3) { v = new Vector_<E>(); v->resize(nr); for (int i = 0; i < nr; ++i) (*v)(i) = eltOf(i); }
             else { Vec<3, E> f; for (int i = 0; i < 3; ++i) f[i] = eltOf(i); v = new Vector_<E>(f); }
@@ -43,7 +44,7 @@ bool op_newOwner() {
         } else {
             RowVector_<E>* v = nullptr;
             if (variant == 0) { v = new RowVector_<E>(nc); for (int i = 0; i < nc; ++i) (*v)[i] = eltOf(i); }
-            else if (variant == 1) v = new RowVector_<E>(nc, eltOf(0));
+            else if (variant == 1) v = new RowVector_<E>(nc, fillE);
             else if (variant == 2) { std::vector<E> a((size_t)std::max(1, nc)); for (int i = 0; i < nc; ++i) a[i] = eltOf(i); v = new RowVector_<E>(nc, a.data()); }
             else if (variant == 3) { v = new RowVector_<E>(); v->resize(nc); for (int i = 0; i < nc; ++i) (*v)(i) = eltOf(i); }
             else { Row<3, E> f; for (int i = 0; i < 3; ++i) f[i] = eltOf(i); v = new RowVector_<E>(f); }
@@ -143,7 +144,7 @@ bool op_viewBlock() {
     if (r.coin(0.15)) { i = 0; j = 0; m = s->nr; n = s->nc; }
     // input class "view with a non-zero offset into an owner that holds no memory" (pointer
     // arithmetic on a null data pointer inside the helper) is generated only on request
-    if (s->own->b.empty() && (i || j) && !allowNullOffsetViews) { i = 0; j = 0; m = std::min(m, s->nr); n = std::min(n, s->nc); }
+    if ((s->own->b.empty() || s->nr * s->nc == 0) && (i || j) && !allowNullOffsetViews) { i = 0; j = 0; m = std::min(m, s->nr); n = std::min(n, s->nc); }
     bool paren = r.coin();
     std::vector<int> map((size_t)m * n);
     for (int jj = 0; jj < n; ++jj) for (int ii = 0; ii < m; ++ii) map[ii + jj * m] = s->map[(i + ii) + (j + jj) * s->nr];
@@ -263,10 +264,16 @@ bool op_viewSubVector() {
     std::vector<int> idx;
     if (indexed) { for (int q = 0; q < len; ++q) if (r.coin(0.5)) idx.push_back(q); }
     else { int i = r.integer(0, len), m = r.integer(0, len - i); for (int q = 0; q < m; ++q) idx.push_back(i + q); if (idx.empty()) idx.clear(); }
-    int start = idx.empty() ? r.integer(0, len) : idx[0], n = (int)idx.size();
-    std::vector<int> map(n); for (int q = 0; q < n; ++q) map[q] = s->map[idx[q]];
     bool srcContig = true;
     withT(s->t, [&](auto tt) { constexpr int T = decltype(tt)::value; srcContig = asBase<T>(*s).hasContiguousData(); });
+    // two input classes with known findings are generated at a reduced rate (and keyed apart):
+    // index() on a non-contiguous source, and index() with an empty list
+    const bool rowAsCol = (isRow == libColumnOrder(*s));   // helper's row/column flag disagrees with the handle (vector born with length 1, or its transpose)
+    if (indexed && ((!idx.empty() && !srcContig && !r.coin(0.3)) || (rowAsCol && !r.coin(0.3)))) {
+        indexed = false; idx.clear(); int i = r.integer(0, len), m = r.integer(0, len - i); for (int q = 0; q < m; ++q) idx.push_back(i + q);
+    }
+    int start = idx.empty() ? r.integer(0, len) : idx[0], n = (int)idx.size();
+    std::vector<int> map(n); for (int q = 0; q < n; ++q) map[q] = s->map[idx[q]];
     std::string is; for (int q : idx) is += std::to_string(q) + " ";
     log(std::string(indexed ? "index" : "subvector") + (cst ? " const" : "") + " of " + tag(*s) + (indexed ? " [" + is + "]" : " (" + std::to_string(start) + "," + std::to_string(n) + ")") + (srcContig ? " src-contiguous" : " src-noncontiguous"));
     void* p = nullptr;
@@ -284,7 +291,7 @@ bool op_viewSubVector() {
             p = static_cast<MatrixBase<E>*>(v); }
     });
     Obj* o = addView(*s, isRow ? RV : VV, s->t, p, isRow ? 1 : n, isRow ? n : 1, map, s->writable && !cst, s->trans, isRow ? 1 : -1, isRow ? -1 : 1);
-    std::string cls = indexed ? (srcContig ? "index:src-contiguous" : "index:src-noncontiguous") : "subvector";
+    std::string cls = indexed ? (rowAsCol ? "index:source-with-mismatched-storage-order-flag" : (srcContig || n == 0) ? "index:src-contiguous" : "index:src-noncontiguous") : "subvector";
     cover(cls, *s);
     compareAll("view:" + cls + (IsScalar ? ":scalar-elt" : ":composite-elt"), o);
     return true;
@@ -298,6 +305,8 @@ bool op_viewShallow() {
     if (sh == 0 && s->nc == 1) targets.push_back(1);
     if (sh == 0 && s->nr == 1) targets.push_back(2);
     int ts = targets[r.next() % targets.size()];
+    // a Vector/RowVector handle on 2-d storage refuses one-index element access (finding): rare
+    if (ts != 0 && sh == 0 && !lib1d(*s) && !r.coin(0.1)) ts = 0;
     bool cst = r.coin(0.3);
     log(std::string("shallow handle ") + kKindName[ts * 2 + 1] + " on " + tag(*s));
     void* p = nullptr;
@@ -315,6 +324,7 @@ bool op_viewShallow() {
 bool op_viewAssign() {
     Obj* d = pick([](const Obj& o) { return !o.isOwner && (o.kind & 1) && !o.own->external; }); if (!d) return false;
     Obj* s = pick([&](const Obj& o) { return o.t == d->t && &o != d && (d->fixR < 0 || o.nr == d->fixR) && (d->fixC < 0 || o.nc == d->fixC); }); if (!s) return false;
+    if (shapeOf(d->kind) != 0 && !lib1d(*s) && !r.coin(0.1)) return false;
     log("viewAssign " + tag(*d) + " <- " + tag(*s));
     withT(d->t, [&](auto tt) { constexpr int T = decltype(tt)::value; asBase<T>(*d).viewAssign(asBase<T>(*s)); });
     d->own = s->own; d->map = s->map; d->nr = s->nr; d->nc = s->nc; d->writable = s->writable; d->trans = s->trans; d->depth = s->depth + 1;
